@@ -604,7 +604,9 @@ class RecordContextMatcher:
 
             return getattr(obj, node.attr, NONE_OBJECT)
         elif isinstance(node, ast.BoolOp):
-            values = []
+            # Python semantics: the value of the first operand that decides the outcome, else the last operand
+            stop_on = not isinstance(node.op, ast.And)
+            value = None
             for expr in node.values:
                 try:
                     value = self.eval(expr)
@@ -613,12 +615,9 @@ class RecordContextMatcher:
                         value = False
                     else:
                         raise
-                value = bool(value)
-                values.append(value)
-            result = values.pop(0)
-            for value in values:
-                result = AST_OPERATORS[type(node.op)](result, value)
-            return result
+                if bool(value) is stop_on:
+                    return value
+            return value
         elif isinstance(node, ast.BinOp):
             left = self.eval(node.left)
             right = self.eval(node.right)
